@@ -164,6 +164,9 @@ def make_request(cls, k, rng, projdir, corpus, big):
                  '-2**63', '"\\u00e9\\u4e2d" * %d' % (k + 1), '[[]] * %d' % (k % 40), '{%d: "int key"}' % k]
         if big:
             exprs.append('"%d" + "A" * %d' % (k, big))
+        if rng.random() < 0.04:
+            # a request that takes a few seconds: its reply must still be its own, and the next request's too
+            return 'eval', ['import time\ntime.sleep(3.3)\nreturn %d' % k], {}, True
         e = rng.choice(exprs)
         return 'eval', ['return ' + e], {}, True
     if cls == 'evalexc':
